@@ -28,6 +28,8 @@ from .poly import Rat, as_rat, sqrt_of, func_atom, atom_info, split_content, _fr
 class Arr:
     """fixed-shape array of values (nested python lists, mutable)"""
 
+    inherits_dtype = False     # created by array()/asarray() of caller data without a dtype: integer input stays integer
+
     def __init__(self, data):
         self.data = data
 
@@ -204,6 +206,9 @@ class RaiseReached(AnalysisError):
         self.node = node
 
 
+HAZARDS = []       # (kind, function name, line, text) recorded by every Evaluator of the run
+
+
 class _Return(Exception):
     def __init__(self, value):
         self.value = value
@@ -233,6 +238,7 @@ class Evaluator:
         self.trace = []                   # notes (asserts skipped, branches chosen)
         self.calls = []                   # (callee name, [arg keys]) of module-level calls seen
         self.np_log = []                  # (numpy function, [args], result) of opaque numpy calls (inv, qr, det, ...)
+        self.hazards = []                 # dtype / aliasing hazards met on the analysed path
 
     # ------------------------------------------------------------------ API
     def call_function(self, name, args, kwargs=None):
@@ -262,12 +268,15 @@ class Evaluator:
             if k not in params:
                 raise AnalysisError("E3: unknown keyword %s for %s" % (k, fn.name))
         self.depth += 1
+        prev = getattr(self, "current_fn", None)
+        self.current_fn = fn.name
         try:
             self.exec_block(fn.body, env)
         except _Return as r:
             return r.value
         finally:
             self.depth -= 1
+            self.current_fn = prev
         return None
 
     def run_body(self, fn, env):
@@ -407,6 +416,12 @@ class Evaluator:
                 base[idx[0]] = val
                 return
             if isinstance(base, Arr):
+                if base.inherits_dtype:
+                    rec = ("dtype", getattr(self, "current_fn", "?"), target.lineno,
+                           "in-place store `%s = ...` into an array created from the caller's data without dtype=float: "
+                           "integer input makes it an integer array and the stored floats are truncated" % unparse(target))
+                    self.hazards.append(rec)
+                    HAZARDS.append(rec)
                 d = base.data
                 for i in idx[:-1]:
                     if not isinstance(i, int):
@@ -422,8 +437,18 @@ class Evaluator:
                     else:
                         d[last] = scalar(val)
                     return
-                if last == slice(None) and len(idx) == 2 and isinstance(idx[0], int):
-                    pass
+                if isinstance(last, slice) and all(not isinstance(x, list) for x in d):
+                    rng = range(*last.indices(len(d)))
+                    m = val if isinstance(val, Arr) else materialise(val)
+                    if m is not None and m.shape == (len(rng),):
+                        for k, i in enumerate(rng):
+                            d[i] = scalar(m.data[k])
+                        return
+                    if m is None:
+                        sc = scalar(val)
+                        for i in rng:
+                            d[i] = sc
+                        return
                 raise AnalysisError("E3: unsupported array store (line %d)" % target.lineno)
             raise AnalysisError("E3: store into %r unsupported (line %d)" % (type(base).__name__, target.lineno))
         raise AnalysisError("E3: unsupported assignment target (line %d)" % target.lineno)
@@ -994,13 +1019,29 @@ class Evaluator:
             return func_atom("arctan2", scalar(args[0]), scalar(args[1]))
         if name in ("array", "asarray", "ascontiguousarray", "asfarray") and 1 <= len(args) <= 2:
             v = args[0]
+            has_dtype = len(args) == 2 or "dtype" in kwargs or name == "asfarray"
             if isinstance(v, Arr):
-                return v.copy()
+                r = v.copy()
+                r.inherits_dtype = v.inherits_dtype and not has_dtype
+                return r
             if isinstance(v, Opaque):
-                return v
+                if v.shape is None:
+                    return v
+                r = materialise(v)
+                if r is None:
+                    return v
+                r.inherits_dtype = not has_dtype
+                return r
             m = materialise(v)
             if m is None:
                 raise AnalysisError("E3: array() of %r (line %d)" % (v, node.lineno))
+            if not has_dtype and name in ("array", "asarray"):
+                # a list of caller-supplied numbers keeps their (possibly integer) dtype
+                def from_caller(d):
+                    if isinstance(d, (list, tuple)):
+                        return all(from_caller(x) for x in d)
+                    return isinstance(d, Opaque) or (isinstance(d, Rat) and single_atom(d) is not None and "[" in single_atom(d) and "(" not in single_atom(d))
+                m.inherits_dtype = from_caller(v)
             return m
         if name == "zeros":
             shp = args[0]
